@@ -137,4 +137,51 @@ PROPS = {
         "trusted_base": COMMON_TB,
         "assumptions": ["tag approvals and v0.1 authorizations are not generated"],
     },
+    "C04": {
+        "test": "TestC04",
+        "lean_modules": ["Gittuf.Props.C04"],
+        "n": {"quick": 120, "thorough": 2400},
+        "min_per_shard": 10,
+        "rule": "one case = one real RSL (<=12 entries, 8%: <=30; thorough also <=60) built through pkg/rsl (Commit / CommitWithoutNumber) or crafted commit by commit, "
+                "over refs {main, feature, gittuf/policy, gittuf/policy-staging, gittuf/attestations}, reference / propagation / annotation entries "
+                "(1-2 targets, skip flag, message), 25% with a legacy unnumbered prefix; 35% carry one corruption made with plain git before the first read "
+                "(extra parent, number gap, duplicate, zero, garbage message). 20 queries per log: GetLatestReferenceUpdaterEntry with random option "
+                "combinations and before/until bounds by id and by number taken from the log (incl. before = until, both-set, out-of-range), "
+                "GetFirstEntry / GetFirstReferenceUpdaterEntryForRef, GetNonGittufParentReferenceUpdaterEntryForEntry, GetFirstReferenceUpdaterEntryForCommit, "
+                "GetReferenceUpdaterEntriesInRange[ForRef], GetEntry, GetParentForEntry. Every answer (class, entry index, annotation indices) is compared with the "
+                "Lean model and judged against the list spec on the well-formed prefix; non-trivial = some query returned an entry or the log is tampered; distinct by input hash.",
+        "trusted_base": COMMON_TB + ["entry messages written by createCommitMessage parse back to the same entry (C14's subject); commit ids are symbolic"],
+        "assumptions": ["unsigned RSL commits; one process-wide rsl cache shared by all logs of a run (keyed by content hash)"],
+    },
+    "C03": {
+        "test": "TestC03",
+        "lean_modules": ["Gittuf.Props.C03"],
+        "n": {"quick": 150, "thorough": 3000},
+        "min_per_shard": 10,
+        "rule": "one case = a sequence of 1..12 (10%: ..30; thorough 3%: ..120) recording operations through the real pkg/rsl API on a real repository: "
+                "reference / propagation / annotation entries with Commit, 30% starting with 1-4 CommitWithoutNumber (legacy) operations, annotations naming "
+                "1-3 earlier commits, 16% naming a commit that is not an entry or a missing object, 3% naming nothing, unusual ref names, and SkipAllInvalidReferenceEntriesForRef on refs recorded at least twice (targets on diverging "
+                "branches, so about half of them write a skip annotation); 30% of the sequences also call policy State.Commit (staging, with RSL entry), policy.Apply and "
+                "Attestations.Commit, whose decision to record is taken as observed and whose recorded entry must be one reference entry for their ref. After every "
+                "operation the chain is re-read with git cat-file by an independent reader (not gittuf's) and compared with the model's chain; ChainInv / "
+                "Extends / exactly-one-appended / refused-when-not-an-entry are evaluated on the implementation's chain. non-trivial = final chain >= 2 entries.",
+        "trusted_base": COMMON_TB + ["entry messages written by createCommitMessage parse back to the same entry (C14's subject); commit ids are symbolic and fresh"],
+        "assumptions": ["single writer (concurrency is C17), no injected faults (C16); the policy layer's own conditions for staging/apply "
+                        "(signatures, fast-forward) are not modelled: only what these calls do to the RSL is compared"],
+    },
+    "C19": {
+        "test": "TestC19",
+        "lean_modules": ["Gittuf.Props.C19"],
+        "n": {"quick": 10, "thorough": 300},
+        "min_per_shard": 3,
+        "rule": "policies with one or two rules consulted for the target branch (thresholds 1..3 over Person principals), optional "
+                "file rule, optional global rule, optional trusted app; a valid base state of the branch; a feature history of 1-3 "
+                "commits signed by various principals touching protected / unprotected paths; authorizations for the merge signed by any "
+                "subset (incl. the empty subset and an outsider) and code-review approvals. The real VerifyMergeable is called, then the "
+                "fast-forward merge is recorded by each of 7 candidate recorders (unsigned, outsider, every developer) on the same "
+                "repository, verified with the real VerifyRefFull and rolled back; prediction and every verdict are compared with the "
+                "Lean model; the prediction/verdict agreement demanded by the property is evaluated on the implementation's answers.",
+        "trusted_base": COMMON_TB,
+        "assumptions": ["only fast-forward merges are recorded (merge commits carrying the predicted tree, and real three-way merges, are not generated)"],
+    },
 }
